@@ -8,12 +8,14 @@
    G  A + every comparison flipped (`a < b` -> `b > a`)
    K  A + a temporary before every return
    O  A + methods of every class in reverse order
-   DEHGKOC  all of them together
+   T  A + keyword arguments of every call in reverse order
+   R  A + the first positional argument of a call hoisted into a temporary when it is itself a call
+   DEHGKOCTR  all of them together
 Every check must stay silent (exit 0) on each of them."""
 import ast
 import os
 
-KINDS = ["A", "B", "C", "D", "E", "H", "G", "K", "O", "DEHGKOC"]
+KINDS = ["A", "B", "C", "D", "E", "H", "G", "K", "O", "T", "R", "DEHGKOCTR"]
 
 
 class Renamer(ast.NodeTransformer):
@@ -173,8 +175,48 @@ class Logger(ast.NodeTransformer):
         return node
 
 
+class KwReverse(ast.NodeTransformer):
+    """T: keyword arguments of every call in reverse order (named keywords only; **kwargs keep their place at the end)."""
+
+    def visit_Call(self, node):
+        self.generic_visit(node)
+        named = [k for k in node.keywords if k.arg is not None]
+        star = [k for k in node.keywords if k.arg is None]
+        if len(named) > 1 and not star:
+            node.keywords = named[::-1]
+        return node
+
+
+class HoistArg(ast.NodeTransformer):
+    """R: `x = f(g(..), ..)` -> `arg_q = g(..); x = f(arg_q, ..)` for simple assignments in function bodies whose value is a
+    call with a call as FIRST positional argument and a plain name / attribute chain of names as callee."""
+
+    def _simple_callee(self, f):
+        while isinstance(f, ast.Attribute):
+            f = f.value
+        return isinstance(f, ast.Name)
+
+    def generic_visit(self, node):
+        super().generic_visit(node)
+        for field in ("body", "orelse", "finalbody"):
+            b = getattr(node, field, None)
+            if not isinstance(b, list) or not isinstance(node, (ast.FunctionDef, ast.If, ast.For, ast.With, ast.Try)):
+                continue
+            out = []
+            for st in b:
+                if isinstance(st, ast.Assign) and len(st.targets) == 1 and isinstance(st.targets[0], ast.Name) and isinstance(st.value, ast.Call) \
+                        and st.value.args and isinstance(st.value.args[0], ast.Call) and self._simple_callee(st.value.func) \
+                        and not any(isinstance(x, (ast.Lambda, ast.NamedExpr, ast.Starred)) for x in ast.walk(st.value)):
+                    tmp = ast.Name(id="arg_q", ctx=ast.Store())
+                    out.append(ast.Assign(targets=[tmp], value=st.value.args[0], lineno=st.lineno))
+                    st.value.args[0] = ast.Name(id="arg_q", ctx=ast.Load())
+                out.append(st)
+            setattr(node, field, out)
+        return node
+
+
 PASSES = {"B": lambda: Renamer(), "D": lambda: DeepRenamer(), "C": lambda: Logger(), "E": lambda: MulSwap(), "H": lambda: IfInvert(),
-          "G": lambda: CmpFlip(), "K": lambda: RetTemp(), "O": lambda: MethodReverse()}
+          "G": lambda: CmpFlip(), "K": lambda: RetTemp(), "O": lambda: MethodReverse(), "T": lambda: KwReverse(), "R": lambda: HoistArg()}
 
 
 def transform(root, kind):
